@@ -115,6 +115,8 @@ def main():
     check('t_as_mut', len(rets) == 2, 'two paths; got %d' % len(rets))
     o = run('t_mem', ['s']); rets = [x for x in o if x[0] == 'ret']
     check('t_mem', len(rets) == 1 and rets[0][3] == ('tup', (fld(S('s'), 'a'), fld(S('s'), 'b'), I(9))), 'replace then swap: (old a, b, 9); got %s' % (rets[0][2] if rets else None))
+    o = run('t_handwritten_eq', []); rets = [x for x in o if x[0] == 'ret']
+    check('t_handwritten_eq', len(rets) == 1 and rets[0][3] == ('tup', (('bool', True), ('bool', False), ('bool', False))), 'hand-written eq inlined (P==Q true, Q==P false, P!=Q false); got %s' % [x[2] for x in rets])
     print('interpreter self-test: %d checks, %d failures' % (n, len(fails)))
     for f in fails: print('  FAIL', f)
     return 1 if fails else 0
